@@ -193,3 +193,7 @@ mod test {
         assert!(!WordId::new(0, 0).is_special());
     }
 }
+
+// verification hook: harness text lives outside the repository (see MANIFEST.hooks)
+#[cfg(any(kani, sudachi_verif))]
+include!(concat!(env!("SUDACHI_VERIF_DIR"), "/dic__word_id.rs"));
